@@ -390,7 +390,7 @@ def r4(ctx):
     ctx.emit('C10-R4', bool(dflt), COUNTTABLE, g, 'sliding increment defaults to the bin size (no sliding)', key='sliding-default', nontrivial=False)
     # ... and an increment the caller gave is the increment that is used: nothing else re-binds args.sliding / args.bin on the way to the reads
     other = [x for x in ast.walk(g) if isinstance(x, (ast.Assign, ast.AugAssign)) and any(src(t_) in ('args.sliding', 'args.bin') for t_ in (x.targets if isinstance(x, ast.Assign) else [x.target]))
-             and not any(x is d_ for d_ in dflt)]
+             and not any(x is d_ for d_ in dflt) and not (isinstance(x, ast.Assign) and len(x.targets) == 1 and src(x.targets[0]) == src(x.value))]       # `a = a`: the other arm of a conditional default
     ctx.emit('C10-R4', not other, COUNTTABLE, other[0] if other else g, 'the bin size and a given sliding increment reach the window arithmetic unchanged' if not other else
              f'`{src(other[0])[:70]}` replaces the window parameters the caller gave: the windows counted are not the windows asked for', key='window-parameters-unchanged',
              witness={'statement': src(other[0])[:90]} if other else None, what='create_count_table: the sliding increment / bin size given by the caller is replaced')
